@@ -22,12 +22,12 @@ free_text = st.text(alphabet=ALPHABET, max_size=60)
 
 lead = st.sampled_from(["", "", "", " ", "  ", "   "])
 lineno = st.sampled_from(["", "", "N1 ", "N25", "n7 ", "N007 "])
-code = st.sampled_from(["G1", "G0", "g1", "G 1", "G01", "M117", "M204", "T0", "T 1", "G38.2", "G92.1", "M 600", "G28", "G10", "m82", "M73"])
+code = st.sampled_from(["G1", "G0", "g1", "G 1", "G01", "M117", "M204", "T0", "T 1", "G38.2", "G92.1", "G38.0", "M428.0", "G1.0", "G0.00", "M 600", "G28", "G10", "m82", "M73"])
 params = st.one_of(
     st.sampled_from(["", " X1 Y2", "X1Y2", " X-1.5 E.5 F1200", " S255", " Hello world", " P1 \; not a comment", " X1  Y2 ", " .5", " 5", " E1e-5",
                      " X", " ;", " \\\\", " X+.5Y-5.", "  text with * star"]),
     st.text(alphabet="XYZEFS0123456789.-+ \\", max_size=12))
-checksum = st.sampled_from(["", "", "", "*0", "*71", "*255", " *12", "*"])
+checksum = st.sampled_from(["", "", "", "*0", "*71", "*255", " *12", "*", "* 7", "*  12", "* ", "*007", "**5"])
 trail = st.sampled_from(["", "", " ", "  "])
 comment = st.sampled_from(["", "", "; comment", ";", " ; c * 3", ";N5 G1"])
 eol = st.sampled_from(["\n", "\n", "\r\n", "\r", ""])
